@@ -48,6 +48,8 @@ typedef struct vf_os_state_s {
   unsigned    never_fail_kinds;        /* bit mask over VF_C_*: calls of these kinds are never refused, whatever the plan says */
   /* environment answers */
   int         reset_zero;         /* MADV_FREE: 0 = keep contents, 1 = drop contents at once */
+  int         ignore_hint;        /* 1: the OS does not honour address hints: a hinted (non-fixed) mmap lands at an address of the OS' choosing, 68 KiB past a 32 MiB boundary */
+  uintptr_t   hint_bump;
   int         madv_free_einval;   /* 1: MADV_FREE is answered EINVAL (drives the documented fallback) */
   int64_t     clock_ms;           /* virtual monotonic clock */
   uint64_t    rng_seed, rng_ctr;  /* deterministic getrandom */
